@@ -16,7 +16,9 @@ import (
 	"encoding/json"
 	"fmt"
 	"io"
+	"net"
 	"sort"
+	"strings"
 	"sync"
 	"testing"
 	"time"
@@ -28,12 +30,13 @@ import (
 
 	"verif/pkg/eq"
 	"verif/pkg/ev"
+	"verif/pkg/refcodec"
 	"verif/pkg/refnone"
 )
 
 func TestMain(m *testing.M) { ev.Main(m) }
 
-var rec = ev.For("C12", "conforming chunk streams from a hand-written reference sender (policy None; server kind: Receive loop, client kind: SendRequest handlers): 1-8 messages, arbitrary split points incl. an empty final chunk, start sequence number anywhere incl. streams crossing the Part 6 wrap onto 0/1/1023/other <1024, chunk-wise interleaving of multi-chunk messages with distinct request ids, abort chunks; plus genuine gopcua senders under a secured policy steered across the wrap; non-trivial = crosses the wrap, or interleaves >= 2 request ids, or contains an abort; distinct by hash of the case")
+var rec = ev.For("C12", "conforming chunk streams from independent reference senders (policy None: pkg/refnone; secured policies, Sign and SignAndEncrypt: pkg/refcodec; server kind: Receive loop, client kind: SendRequest handlers): 1-8 messages, arbitrary split points incl. an empty final chunk, start sequence number anywhere incl. streams crossing the Part 6 wrap onto 0/1/1023/other <1024, chunk-wise interleaving of multi-chunk messages with distinct request ids, abort chunks; plus genuine gopcua senders (None / Basic256Sha256) steered across their wrap; non-trivial = crosses the wrap, or interleaves >= 2 request ids, or contains an abort; distinct by hash of the case")
 
 // ---------------------------------------------------------------------------
 // Case (plain data)
@@ -52,7 +55,9 @@ type msgT struct {
 }
 
 type caseT struct {
-	Kind      string `json:"kind"` // "server" (gopcua server channel receives requests) | "client"
+	Kind      string `json:"kind"`    // "server" (gopcua server channel receives requests) | "client"
+	Policy    string `json:"policy"`  // "" = None (reference: pkg/refnone), else a secured policy URI (reference: pkg/refcodec)
+	Encrypt   bool   `json:"encrypt"` // secured policy: SignAndEncrypt instead of Sign
 	Buf       uint32 `json:"buf"`  // negotiated buffer size (both directions)
 	StartSeq  uint32 `json:"start_seq"`
 	WrapAfter uint32 `json:"wrap_after"`
@@ -167,9 +172,8 @@ type chunkT struct {
 }
 
 // chunksOf lays a message out as chunks; it validates the plain-data case.
-func chunksOf(kind string, m msgT, buf uint32) ([]chunkT, []byte, error) {
+func chunksOf(kind string, m msgT, max int) ([]chunkT, []byte, error) {
 	b := body(kind, m)
-	max := int(buf) - refnone.SymHeaderLen
 	var pieces [][]byte
 	prev := 0
 	for _, c := range m.Cuts {
@@ -239,6 +243,9 @@ func plan(c caseT) (*planT, error) {
 	if c.Buf < 8192 || c.Buf > 65535 {
 		return nil, fmt.Errorf("buf %d", c.Buf)
 	}
+	if c.Policy != "" && (refcodec.PolicyByURI(c.Policy) == nil || !refcodec.PolicyByURI(c.Policy).Secure()) {
+		return nil, fmt.Errorf("policy %q", c.Policy)
+	}
 	if len(c.Msgs) < 1 || len(c.Msgs) > 8 {
 		return nil, fmt.Errorf("%d messages", len(c.Msgs))
 	}
@@ -249,7 +256,7 @@ func plan(c caseT) (*planT, error) {
 	bodies := make([][]byte, len(c.Msgs))
 	ids := map[uint32]bool{}
 	for i, m := range c.Msgs {
-		cs, b, err := chunksOf(c.Kind, m, c.Buf)
+		cs, b, err := chunksOf(c.Kind, m, maxChunkBody(c))
 		if err != nil {
 			return nil, fmt.Errorf("msg %d: %v", i, err)
 		}
@@ -312,7 +319,14 @@ func plan(c caseT) (*planT, error) {
 		}
 	}
 	// classes
-	p.classes = append(p.classes, "kind:"+c.Kind, fmt.Sprintf("msgs:%d", len(c.Msgs)))
+	pc := "None"
+	if c.Policy != "" {
+		pc = strings.TrimPrefix(c.Policy, "http://opcfoundation.org/UA/SecurityPolicy#") + "/Sign"
+		if c.Encrypt {
+			pc += "AndEncrypt"
+		}
+	}
+	p.classes = append(p.classes, "kind:"+c.Kind, "kind:"+c.Kind+" "+pc, fmt.Sprintf("msgs:%d", len(c.Msgs)))
 	multi, aborts, emptyFinal, oneByte := 0, 0, 0, 0
 	for i, m := range c.Msgs {
 		if len(all[i]) > 1 {
@@ -397,7 +411,17 @@ func genCase(t *rapid.T) caseT {
 	var c caseT
 	c.Kind = rapid.SampledFrom([]string{"server", "server", "client"}).Draw(t, "kind")
 	c.Buf = rapid.SampledFrom([]uint32{8192, 8192, 8193, 16384, 65535}).Draw(t, "buf")
-	max := int(c.Buf) - refnone.SymHeaderLen
+	switch rapid.IntRange(0, 9).Draw(t, "sec") {
+	case 0, 1, 2, 3, 4:
+	case 5, 6:
+		c.Policy, c.Encrypt = ua.SecurityPolicyURIBasic256Sha256, true
+	case 7, 8:
+		c.Policy, c.Encrypt = ua.SecurityPolicyURIBasic256Sha256, false
+	default:
+		c.Policy = rapid.SampledFrom([]string{ua.SecurityPolicyURIBasic128Rsa15, ua.SecurityPolicyURIBasic256, ua.SecurityPolicyURIAes128Sha256RsaOaep, ua.SecurityPolicyURIAes256Sha256RsaPss}).Draw(t, "policy")
+		c.Encrypt = rapid.Bool().Draw(t, "encrypt")
+	}
+	max := maxChunkBody(c)
 	n := rapid.IntRange(1, 8).Draw(t, "nmsgs")
 	usedIDs := map[uint32]bool{}
 	nchunks := make([]int, n)
@@ -433,6 +457,12 @@ func genCase(t *rapid.T) caseT {
 			usedIDs[m.ReqID] = true
 		}
 		b := body(c.Kind, m)
+		for len(b) > 56*max || len(b) > 1<<20 {
+			// keep a message within 64 chunks (8 interleaved messages stay within
+			// MaxChunkCount 512 in total) and 1 MiB
+			m.Size = m.Size / 2
+			b = body(c.Kind, m)
+		}
 		// split points: the mandatory ones (a piece may not exceed max) plus drawn ones
 		style := rapid.IntRange(0, 3).Draw(t, "splitstyle")
 		var cuts []int
@@ -601,19 +631,30 @@ func runServer(c caseT, p *planT) (string, error) {
 		accCh <- acc{conn, err}
 	}()
 	endpoint := "opc.tcp://" + ln.Addr().String()
-	rc, err := refnone.Dial(ln.Addr().String(), endpoint, refnone.Limits{RecvBuf: c.Buf, SendBuf: c.Buf}, 10*time.Second)
-	if err != nil {
-		return "", fmt.Errorf("reference dial: %w", err)
+	// the reference client: HEL/ACK, then the OPN exchange (needs the server's Receive loop)
+	type dialed struct {
+		r   *refEnd
+		err error
 	}
-	defer rc.Close()
-	a := <-accCh
+	refCh := make(chan dialed, 1)
+	go func() {
+		r, err := dialRef(c, ln.Addr().String(), endpoint, p.opnSeq)
+		refCh <- dialed{r, err}
+	}()
+	var a acc
+	select {
+	case a = <-accCh:
+	case d := <-refCh:
+		return "", fmt.Errorf("reference client: %v", d.err)
+	case <-time.After(waitBound):
+		return "", errTimeout{"accept did not return"}
+	}
 	if a.err != nil {
 		return "", fmt.Errorf("accept: %w", a.err)
 	}
 	defer a.c.Close()
 	errch := make(chan error, 64)
-	cfg := &uasc.Config{SecurityPolicyURI: ua.SecurityPolicyURINone, SecurityMode: ua.MessageSecurityModeNone, Lifetime: 3600_000}
-	sc, err := uasc.NewServerSecureChannel(endpoint, a.c, cfg, errch, 4711, 17, 815)
+	sc, err := uasc.NewServerSecureChannel(endpoint, a.c, serverChannelConfig(c), errch, 4711, 17, 815)
 	if err != nil {
 		return "", err
 	}
@@ -627,13 +668,20 @@ func runServer(c caseT, p *planT) (string, error) {
 			}
 		}
 	}()
-	seq := refnone.NewSeq(c.StartSeq, c.WrapAfter, c.WrapTo)
-	ch, err := refnone.OpenAsClient(rc, seq, 1, 10*time.Second)
-	if err != nil {
-		return "", fmt.Errorf("reference OPN: %w", err)
+	var ref *refEnd
+	select {
+	case d := <-refCh:
+		if d.err != nil {
+			return "", fmt.Errorf("reference OPN: %w", d.err)
+		}
+		ref = d.r
+	case <-time.After(waitBound):
+		return "", errTimeout{"the reference client did not finish the OPN exchange"}
 	}
-	if ch.ChannelID != 4711 || ch.TokenID != 815 {
-		return "", fmt.Errorf("server issued channel %d token %d", ch.ChannelID, ch.TokenID)
+	rc := ref.conn
+	defer rc.Close()
+	if ch, tk := ref.ids(); ch != 4711 || tk != 815 {
+		return "", fmt.Errorf("server issued channel %d token %d", ch, tk)
 	}
 	select {
 	case m := <-results:
@@ -646,14 +694,17 @@ func runServer(c caseT, p *planT) (string, error) {
 	// emit the stream
 	var wire bytes.Buffer
 	for _, e := range p.emits {
-		f := ch.Msg(e.typ, c.Msgs[e.msg].ReqID, e.data)
+		f, err := ref.chunk(e.typ, c.Msgs[e.msg].ReqID, e.seq, e.data)
+		if err != nil {
+			return "", fmt.Errorf("reference chunk: %w", err)
+		}
 		wire.Write(f)
 	}
 	werr := make(chan error, 1)
 	go func() {
 		_, err := rc.Write(wire.Bytes())
 		if err == nil {
-			err = rc.Conn.(interface{ CloseWrite() error }).CloseWrite()
+			err = rc.(interface{ CloseWrite() error }).CloseWrite()
 		}
 		werr <- err
 	}()
@@ -756,11 +807,12 @@ func firstDiff(a, b []byte) int {
 func runClient(c caseT, p *planT) (string, error) {
 	ctx, cancel := context.WithCancel(context.Background())
 	defer cancel()
-	ln, err := refnone.Listen()
+	ln, err := net.Listen("tcp", "127.0.0.1:0")
 	if err != nil {
 		return "", err
 	}
 	defer ln.Close()
+	endpoint := "opc.tcp://" + ln.Addr().String()
 	n := len(c.Msgs)
 	type srvEvt struct {
 		idx   int
@@ -774,45 +826,33 @@ func runClient(c caseT, p *planT) (string, error) {
 	ids := make([]uint32, n)
 	go func() {
 		srvDone <- func() error {
-			rc, err := ln.Accept(refnone.Limits{RecvBuf: c.Buf, SendBuf: c.Buf}, 10*time.Second)
+			ref, err := acceptRef(c, ln, p.opnSeq)
 			if err != nil {
 				return err
 			}
+			rc := ref.conn
 			defer rc.Close()
-			seq := refnone.NewSeq(c.StartSeq, c.WrapAfter, c.WrapTo)
-			ch, err := refnone.OpenAsServer(rc, seq, 4711, 815, 10*time.Second)
-			if err != nil {
-				return err
-			}
 			for k := 0; k < n; k++ {
-				rc.SetReadDeadline(time.Now().Add(waitBound))
-				f, err := refnone.ReadFrame(rc, 1<<16)
+				reqID, svc, err := ref.readRequest()
 				if err != nil {
 					return fmt.Errorf("reading request %d: %w", k, err)
-				}
-				q, err := refnone.ParseChunk(f)
-				if err != nil {
-					return err
-				}
-				if q.MsgType != "MSG" || q.ChunkType != 'F' || q.ChannelID != 4711 || q.TokenID != 815 {
-					return fmt.Errorf("unexpected request chunk %s%c channel %d token %d", q.MsgType, q.ChunkType, q.ChannelID, q.TokenID)
-				}
-				_, svc, err := ua.DecodeService(q.Data)
-				if err != nil {
-					return err
 				}
 				rr, ok := svc.(*ua.ReadRequest)
 				if !ok {
 					return fmt.Errorf("unexpected request %T", svc)
 				}
-				seen <- srvEvt{idx: int(rr.MaxAge), reqID: q.ReqID}
+				seen <- srvEvt{idx: int(rr.MaxAge), reqID: reqID}
 			}
-			rc.SetReadDeadline(time.Time{})
 			<-emit
 			var wire bytes.Buffer
 			for _, e := range p.emits {
-				wire.Write(ch.Msg(e.typ, ids[e.msg], e.data))
+				f, err := ref.chunk(e.typ, ids[e.msg], e.seq, e.data)
+				if err != nil {
+					return fmt.Errorf("reference chunk: %w", err)
+				}
+				wire.Write(f)
 			}
+			rc.SetWriteDeadline(time.Now().Add(waitBound))
 			if _, err := rc.Write(wire.Bytes()); err != nil {
 				return err
 			}
@@ -824,14 +864,13 @@ func runClient(c caseT, p *planT) (string, error) {
 	d := &uacp.Dialer{ClientACK: &uacp.Acknowledge{ReceiveBufSize: 65535, SendBufSize: 65535}}
 	dctx, dcancel := context.WithTimeout(ctx, 10*time.Second)
 	defer dcancel()
-	conn, err := d.Dial(dctx, ln.Endpoint())
+	conn, err := d.Dial(dctx, endpoint)
 	if err != nil {
 		return "", fmt.Errorf("dial: %w", err)
 	}
 	defer conn.Close()
 	errch := make(chan error, 64)
-	cfg := &uasc.Config{SecurityPolicyURI: ua.SecurityPolicyURINone, SecurityMode: ua.MessageSecurityModeNone, Lifetime: 3600_000, RequestTimeout: waitBound, RequestIDSeed: c.ReqSeed}
-	sc, err := uasc.NewSecureChannel(ln.Endpoint(), conn, cfg, errch)
+	sc, err := uasc.NewSecureChannel(endpoint, conn, clientChannelConfig(c), errch)
 	if err != nil {
 		return "", err
 	}
@@ -1017,14 +1056,14 @@ func sampleOf(c caseT) any {
 	}
 	out.Kind, out.Buf, out.StartSeq, out.WrapAfter, out.WrapTo, out.Order = c.Kind, c.Buf, c.StartSeq, c.WrapAfter, c.WrapTo, c.Order
 	for _, m := range c.Msgs {
-		cs, b, _ := chunksOf(c.Kind, m, c.Buf)
+		cs, b, _ := chunksOf(c.Kind, m, maxChunkBody(c))
 		out.Msgs = append(out.Msgs, ms{m.ReqID, len(b), len(cs), m.Abort, m.EmptyFinal && !m.Abort})
 	}
 	return out
 }
 
 func TestReassembly(t *testing.T) {
-	rec.Assume("reference sender pkg/refnone hand-written from Part 6 (policy None); service bodies encoded with gopcua's ua.Encode and compared after re-encoding the delivered value (relies on C01 for the three request / three response templates used)")
+	rec.Assume("reference senders: pkg/refnone (hand-written, policy None) and pkg/refcodec (independent Part 6 codec on the Go standard library, five RSA policies, Sign and SignAndEncrypt, 2048-bit fixtures); service bodies encoded with gopcua's ua.Encode and compared after re-encoding the delivered value (relies on C01 for the three request / three response templates used)")
 	rec.Assume("a conforming stream: sequence numbers +1 per chunk over all request ids, wrap after a number > UInt32.Max-1024 onto a number < 1024; chunks <= negotiated buffer size; <= 64 chunks and <= 1 MiB per message (below MaxChunkCount 512 / MaxMessageSize); request ids distinct; no empty intermediate chunks")
 	rapid.Check(t, func(t *rapid.T) {
 		c := genCase(t)
